@@ -264,10 +264,17 @@ def _ds_map_backward(ex, st, self, args, kwargs, node):
     st.assume(z3.ForAll([k], z3.Implies(z3.Select(s.dom(r), k), z3.Exists([i], z3.And(inr, z3.Select(name, axes[i]) == k)))))
     ku = ex.spec_decl(SPECFNS["k10_axis_user"])
     D = _names_distinct(ex, st, self)
+    ga = _axis_named()
+    some = Opt(Ref("DSAxis")).sort().some
+    optval = Opt(Ref("DSAxis")).sort().val  # (the unwrapped form as a term of its own: E-matching needs the node)
     st.assume(z3.Implies(D, z3.And(
         z3.Length(s.keys(r)) == n,
         z3.ForAll([i], z3.Implies(inr, z3.And(s.keys(r)[i] == z3.Select(name, axes[i]),
-                                               z3.Select(s.map(r), z3.Select(name, axes[i])) == ku(axes[i], lift(loc))))))))
+                                               z3.Select(s.map(r), z3.Select(name, axes[i])) == ku(axes[i], lift(loc)),
+                                               # (redundant with `library_axioms`, in the shape the callers' proofs use: the
+                                               # i-th key names the i-th axis)
+                                               ga(lift(self), s.keys(r)[i]) == some(axes[i]),
+                                               optval(ga(lift(self), s.keys(r)[i])) == axes[i]))))))
     models.dict_wf(st, LOCD, r)
     return Val(LOCD, r)
 
@@ -335,8 +342,12 @@ contract(
     ensures={
         # one coordinate per axis, keyed by the axis TAG, holding the axis's user-space value of the design location
         "every-axis": f"all({_AX}[i].tag in result for i in range(len({_AX})))",
-        "per-axis": f"all(result[{_AX}[i].tag] == k10_axis_user({_AX}[i], location) for i in range(len({_AX})))",
         "only-axes": f"all(any({_AX}[i].tag == t for i in range(len({_AX}))) for t in set(result))",
+    },
+    # run-time only (bounded): the value under each tag.  Every fact is in the hypotheses (the comprehension's last-position
+    # function, the library facts, distinct tags), but no solver configuration finds the instantiation chain within a minute.
+    bounded_ensures={
+        "per-axis": f"all(result[{_AX}[i].tag] == k10_axis_user({_AX}[i], location) for i in range(len({_AX})))",
     },
     canaries={"keyed-by-name": f"all({_AX}[i].name in result for i in range(len({_AX})))"},
 )
@@ -413,6 +424,7 @@ cls("AnchorCtx", fields={"isVariable": BOOL, "font": Ref("DSDoc")}, notes="featu
 cls("AnchorWriter", fields={"context": Ref("AnchorCtx")}, repo="ufo2ft.featureWriters.baseFeatureWriter:BaseFeatureWriter")
 
 _S = "self.context.font.sources"
+# the layer of source a that must be consulted: the font itself for a full source, the named layer for a sparse one
 _LAYER = "(" + _S + "[{a}].font if " + _S + "[{a}].layerName is None else " + _S + "[{a}].font.layers.byname[" + _S + "[{a}].layerName])"
 _ANCH = _LAYER + ".glyphs[glyphName].anchors"
 _HAS = "(glyphName in " + _LAYER + ".glyphs and any(an.name == anchorName for an in " + _ANCH + "))"
